@@ -373,6 +373,12 @@ def run(ctx):
         if r:
             n_ok += 1
     ctx.run_rule("F3", rule_default_registry, fr)
+    # "registers that metric ..., returns a handle to the registered metric itself; when the registration is refused it evaluates to Err": the macros' Ok/Err is
+    # Registry::register's, which must admit and record in one step (shared with C06.R2/R3/R5: exact admission, commit on the vacant id only, one write-lock span)
+    from . import C06
+    ctx.rule("F4", "the registration the macros forward to is exact and atomic (shared with C06.R2, R3, R5): admission checks are total, the collector is recorded only when "
+                   "they passed, and Registry::register runs check and insert inside one write-lock acquisition")
+    ctx.run_rule("F4", lambda c: C06._as(c, "F4", lambda s_: (C06.rule_R2(s_, fr), C06.rule_R3(s_, fr), C06.rule_R5(s_, fr))))
     ctx.extra["programs"] = len(insts)
     ctx.extra["disagreements_checked"] = len(insts)
     ctx.extra["forms_agreeing"] = n_ok
